@@ -58,24 +58,36 @@ Origins == { [name |-> "whole",     sec |-> 0,    sub |-> 0],
 
 Cases ==
     { [fn |-> "time_bucket2", unit |-> u[1], amount |-> u[2], origin |-> "default", era |-> e,
-       s |-> IntervalToSeconds(u[2], u[1]),
+       s |-> IntervalToSeconds(u[2], u[1]), wt |-> IntervalToSeconds(u[2], u[1]) * TPS, amt |-> ToString(u[2]), native |-> FALSE,
        oo |-> (DuckDefaultOrigin % IntervalToSeconds(u[2], u[1])) * TPS, ro |-> 0] :
           <<u, e>> \in (UNION { {<<un, n>> : n \in Amounts[un]} : un \in Units }) \X Eras }
     \cup
     { [fn |-> "date_trunc", unit |-> u, amount |-> 1, origin |-> "default", era |-> e,
-       s |-> IntervalToSeconds(1, u),
+       s |-> IntervalToSeconds(1, u), wt |-> IntervalToSeconds(1, u) * TPS, amt |-> "1", native |-> FALSE,
        oo |-> (IF u = "week" THEN MondayOffset * TPS ELSE 0), ro |-> 0] : <<u, e>> \in Units \X Eras }
     \cup
     { [fn |-> "time_bucket3", unit |-> z[1][1], amount |-> z[1][2], origin |-> z[2].name, era |-> z[3],
-       s |-> IntervalToSeconds(z[1][2], z[1][1]),
+       s |-> IntervalToSeconds(z[1][2], z[1][1]), wt |-> IntervalToSeconds(z[1][2], z[1][1]) * TPS, amt |-> ToString(z[1][2]), native |-> FALSE,
        oo |-> z[2].sec * TPS + z[2].sub, ro |-> z[2].sec] :
           z \in {<<"second", 1>>, <<"second", 30>>, <<"minute", 5>>, <<"hour", 1>>, <<"day", 1>>, <<"week", 1>>}
                   \X Origins \X Eras }
+    \cup
+    \* interval amounts that are not plain integers.  The patterns of rewriteTimeBucket capture (\d+) only, so such
+    \* a call is left to DuckDB (native = TRUE: rewritten = original); DuckDB's width is the exact fraction.
+    \* Amount classes: fractional with an integer number of seconds (1.5 hours, 0.5 days, 2.25 minutes = 135 s; every width divides the driver's base unit of 14 days)
+    \* and fractional with a non-integer number of seconds (2.5 s, 1.5 s).  wt = DuckDB's width in ticks.
+    { [fn |-> f[1], unit |-> f[2], amount |-> 0, origin |-> f[5], era |-> e,
+       s |-> f[4] \div TPS, wt |-> f[4], amt |-> f[3], native |-> TRUE,
+       oo |-> IF f[1] = "time_bucket2" THEN ((DuckDefaultOrigin % f[4]) * TPS) % f[4] ELSE 0, ro |-> 0] :
+          <<f, e>> \in { <<"time_bucket2", "second", "2.5", 10, "default">>, <<"time_bucket2", "second", "1.5", 6, "default">>,
+                         <<"time_bucket2", "minute", "2.25", 540, "default">>, <<"time_bucket2", "hour", "1.5", 21600, "default">>,
+                         <<"time_bucket2", "day", "0.5", 172800, "default">>, <<"time_bucket3", "second", "2.5", 10, "whole">>,
+                         <<"time_bucket3", "hour", "1.5", 21600, "whole">> } \X Eras }
 
-W(c)        == c.s * TPS
+W(c)        == c.wt
 Anchored(c) == c.fn = "time_bucket3"          \* the origin literal moves with the base
 Shift(c)    == c.era * 4 * W(c)               \* ticks; a multiple of the width
-RoAbs(c)    == IF Anchored(c) THEN c.ro + c.era * 4 * c.s ELSE 0          \* seconds
+RoAbs(c)    == IF Anchored(c) THEN c.ro + (c.era * 4 * c.wt) \div TPS ELSE 0     \* seconds (wt of the anchored cases is a whole number of seconds)
 OoAbs(c)    == IF Anchored(c) THEN c.oo + Shift(c) ELSE c.oo              \* ticks
 
 \* points explored for a case: everything for small widths; otherwise Win seconds around every
@@ -89,7 +101,8 @@ Range(c) ==
 T(c, x)      == x + Shift(c)                                        \* absolute ticks
 OrigAbs(c, t) == OoAbs(c) + FloorDiv(t - OoAbs(c), W(c)) * W(c)
 Rounded(t)    == RoundHalfEven(t, TPS)                              \* epoch(c)::BIGINT
-RewAbs(c, t)  == (RoAbs(c) + TruncDiv(Rounded(t) - RoAbs(c), c.s) * c.s) * TPS
+RewAbs(c, t)  == IF c.native THEN OrigAbs(c, t)                     \* not matched by the patterns: left to DuckDB
+                 ELSE (RoAbs(c) + TruncDiv(Rounded(t) - RoAbs(c), c.s) * c.s) * TPS
 Orig(c, x)    == OrigAbs(c, T(c, x)) - Shift(c)
 Rew(c, x)     == RewAbs(c, T(c, x)) - Shift(c)
 
@@ -102,7 +115,8 @@ Misaligned(c)  == (OoAbs(c) - RoAbs(c) * TPS) % W(c) # 0
 RoundsUp(c, x) == 2 * Frac(c, x) > TPS \/ (2 * Frac(c, x) = TPS /\ FloorDiv(T(c, x), TPS) % 2 = 1)
 
 Class(c, x) ==
-    IF Misaligned(c) THEN
+    IF c.native THEN "agree:fractional-amount-left-native"
+    ELSE IF Misaligned(c) THEN
         (IF c.fn = "time_bucket2" THEN "grid-misaligned:default-origin-2000-01-03"
          ELSE IF c.fn = "date_trunc" THEN "grid-misaligned:week-starts-monday"
          ELSE "grid-misaligned:subsecond-origin")
@@ -139,7 +153,7 @@ Equivalent == st.phase = "done" => st.orig = st.rew
 
 EmitTrace ==
     (Emit /\ st.phase = "done") =>
-        PrintT(<<"TRACE", ToJson([fn |-> st.c.fn, unit |-> st.c.unit, amount |-> st.c.amount, origin |-> st.c.origin,
+        PrintT(<<"TRACE", ToJson([fn |-> st.c.fn, unit |-> st.c.unit, amount |-> st.c.amount, amt |-> st.c.amt, origin |-> st.c.origin,
                                   era |-> st.c.era, s |-> st.c.s, ro |-> st.c.ro, oosub |-> st.c.oo % TPS, x |-> st.x,
                                   frac |-> FracName(st.c, st.x), cls |-> st.cls,
                                   orig |-> st.orig, rew |-> st.rew])>>)
